@@ -46,7 +46,8 @@ EXHAUSTIVE = {
 FLOORS = {
     "quick": {"walks_static": 1000, "walks_mutated": 1500, "visits": 20000, "mutations_applied": 4000,
               "partial_path_steps": 100, "stale_cache_recoveries": 100, "stable_keys_checked": 8000,
-              "exhaustive_walks": 400, "walks_interleaved": 1000},
+              "exhaustive_walks": 400, "walks_interleaved": 1000, "wide_walks": 4,
+              "steps_with_over_256_unexplored": 10},
     "thorough": {"walks_static": 8000, "walks_mutated": 12000, "visits": 160000, "mutations_applied": 32000,
                  "partial_path_steps": 800, "stale_cache_recoveries": 800, "stable_keys_checked": 64000,
                  "exhaustive_walks": 20000, "walks_interleaved": 10000},
@@ -64,10 +65,18 @@ def pick(fog, strategy, rnd, step):
     else:
         q = tuple(rnd.randrange(16) for _ in range(rnd.randint(0, 6)))
         mode = "unknown" if (strategy == "unknown" or (strategy == "mixed" and rnd.random() < 0.5)) else "right"
+    if strategy == "wide":
+        # breadth first (random query keys), every third pick asks from beyond the last prefix
+        q = (15,) * 6 if step % 3 == 0 else tuple(rnd.randrange(16) for _ in range(rnd.randint(0, 4)))
+        return cut(fog.nearest_unknown, q, expect=(PerfectVisibility,))
     if mode == "unknown":
         return cut(fog.nearest_unknown, q, expect=(PerfectVisibility,))
     r = cut(fog.nearest_right, q, expect=(PerfectVisibility, FullDirectionalVisibility))
-    if isinstance(r, Raised) and isinstance(r.exc, FullDirectionalVisibility):
+    if isinstance(r, Raised):
+        # like a walker that takes PerfectVisibility as "the walk is over" and only then looks
+        # at FullDirectionalVisibility ("nothing to the right of my key: look elsewhere")
+        if isinstance(r.exc, PerfectVisibility):
+            return r
         return cut(fog.nearest_unknown, q, expect=(PerfectVisibility,))
     return r
 
@@ -157,6 +166,10 @@ def run_case(case, ctx):
             else:
                 cache.delete(p)
         visits += 1
+        if strategy == "wide" and visits % 16 == 0:
+            pending = fog.serialize().count(b"b'") + fog.serialize().count(b'b"')
+            if pending > 256:
+                ctx.count("steps_with_over_256_unexplored")
         if visits > 50 * (total_nodes + 1):
             raise Violation("walk-not-terminating", "walk still running after %d visits; all states together have %d nodes" % (visits, total_nodes))
     if not fog.is_complete:
@@ -308,7 +321,7 @@ def gen_case(rnd, tier):
         keys = set()
         for op in case["hist"]:
             hh._track(op, keys)
-        universe = gen.KeyUniverse(rnd, case["universe"] if case["universe"] not in ("k32", "k40") else "adv")
+        universe = gen.KeyUniverse(rnd, case["universe"] if case["universe"] not in ("k32", "k40", "k200") else "adv")
         pool = gen.value_pool(rnd)
         for at in range(0, 60):
             if rnd.random() < pmut and len(muts) < 30:
@@ -389,6 +402,15 @@ def run_shard(ctx):
         run_case_guarded(mod, case, ctx)
         if ctx.full:
             return
+    # SCALE: a trie of about a thousand dense two-byte keys walked breadth first: well over 256 prefixes
+    # are unexplored at the same time
+    for _ in range(1 if ctx.tier == "quick" else 4):
+        keys = {bytes([rnd.randrange(256), rnd.randrange(256)]) for _ in range(rnd.randint(900, 1300))}
+        wide = {"prune": False, "hist": [["set", k.hex(), bytes([k[0] | 1]).hex(), 0] for k in sorted(keys)],
+                "pseed": rnd.randrange(1 << 30), "cache": bool(rnd.randrange(2)), "strategy": "wide",
+                "root_via": "traverse", "muts": [], "prime": False, "universe": "wide"}
+        run_case_guarded(mod, wide, ctx)
+        ctx.count("wide_walks")
     for i in range(150 if ctx.tier == "quick" else 1500):
         kind = rnd.choice(["adv", "adv", "fix3", "chain", "nibbly"])
         a = hs.gen_build(rnd, maxkeys=8, kind=kind, prune=False)
